@@ -949,3 +949,332 @@ Proof.
     cbn [length filter]. specialize (IH (fun h' Hh => Hs h' (or_intror Hh))).
     destruct (in_names t names h); cbn [negb length]; lia.
 Qed.
+
+(* ---------- Merge ---------- *)
+
+Lemma merge_subs_eq subs : forall cs1 cs2,
+  (fix go (subs : list (Z * agg)) (cs1 cs2 : list calc) : list calc :=
+     match subs, cs1, cs2 with
+     | (_, a') :: sr, c1 :: r1, c2 :: r2 => merge a' c1 c2 :: go sr r1 r2
+     | _, _, _ => []
+     end) subs cs1 cs2 = merge_subs subs cs1 cs2.
+Proof.
+  induction subs as [|[n a] r IH]; intros [|c1 r1] [|c2 r2]; reflexivity.
+Qed.
+
+Lemma all_numbers_app s ms1 ms2 : all_numbers s (ms1 ++ ms2) = all_numbers s ms1 ++ all_numbers s ms2.
+Proof. unfold all_numbers. apply flat_map_app. Qed.
+
+Open Scope Q_scope.
+Lemma sumQ_app l1 l2 : sumQ (l1 ++ l2) == sumQ l1 + sumQ l2.
+Proof.
+  unfold sumQ. induction l1 as [|x l1 IH]; cbn [app fold_right]; [ring|]. rewrite IH. ring.
+Qed.
+
+(* merge_exact, sums (Sum, CountMatches): merging two shards' calculators gives the exact sum over
+   both shards' values = what one calculator over the concatenated match list holds *)
+Theorem merge_sum_exact_all s ms1 ms2 q1 q2 :
+  all_numbers s ms1 = map XFin q1 -> all_numbers s ms2 = map XFin q2 ->
+  exists q q', merge (a_sum s) (run_one (a_sum s) ms1) (run_one (a_sum s) ms2) = KVal (XFin q) /\
+               run_one (a_sum s) (ms1 ++ ms2) = KVal (XFin q') /\ q == sumQ (q1 ++ q2) /\ q' == sumQ (q1 ++ q2).
+Proof.
+  intros H1 H2.
+  destruct (sum_exact_all s ms1 q1 H1) as (a & E1 & Ha). destruct (sum_exact_all s ms2 q2 H2) as (b & E2 & Hb).
+  assert (H12 : all_numbers s (ms1 ++ ms2) = map XFin (q1 ++ q2)) by (rewrite all_numbers_app, H1, H2, map_app; reflexivity).
+  destruct (sum_exact_all s (ms1 ++ ms2) _ H12) as (c & E3 & Hc).
+  exists (Qred (a + b)), c. rewrite E1, E2. split; [reflexivity|]. split; [exact E3|]. split; [|exact Hc].
+  rewrite Qred_correct, Ha, Hb, sumQ_app. reflexivity.
+Qed.
+
+Theorem merge_count_exact_all ms1 ms2 :
+  exists q, merge a_count (run_one a_count ms1) (run_one a_count ms2) = KVal (XFin q) /\
+            q == inject_Z (Z.of_nat (length (ms1 ++ ms2))).
+Proof.
+  destruct (merge_sum_exact_all NSCount ms1 ms2 _ _ (all_numbers_count ms1) (all_numbers_count ms2)) as (q & q' & E & _ & Hq & _).
+  exists q. split; [exact E|]. rewrite Hq, <- map_app. apply sumQ_ones.
+Qed.
+
+(* merge_exact, Min: +Inf when neither shard has a value, otherwise a member of the union of the
+   values bounding all of them: the specification min_exact gives for the concatenated list *)
+Theorem merge_min_exact_all s ms1 ms2 q1 q2 :
+  all_numbers s ms1 = map XFin q1 -> all_numbers s ms2 = map XFin q2 ->
+  let v := merge (a_min s) (run_one (a_min s) ms1) (run_one (a_min s) ms2) in
+  (q1 ++ q2 = [] -> v = KVal (XInf false)) /\
+  (q1 ++ q2 <> [] -> exists m, v = KVal (XFin m) /\ In m (q1 ++ q2) /\ forall q, In q (q1 ++ q2) -> m <= q).
+Proof.
+  intros H1 H2.
+  destruct (min_exact_all s ms1 q1 H1) as [A1 A2]. destruct (min_exact_all s ms2 q2 H2) as [B1 B2].
+  cbv zeta. split.
+  - intro E. apply app_eq_nil in E. destruct E as [-> ->]. rewrite (A1 eq_refl), (B1 eq_refl). reflexivity.
+  - intro N. destruct q1 as [|x1 t1]; destruct q2 as [|x2 t2]; try (exfalso; apply N; reflexivity).
+    + rewrite (A1 eq_refl). destruct (B2 ltac:(discriminate)) as (m & E & Hin & Hall). rewrite E.
+      exists m. cbn [merge a_min single_step xlt negb]. split; [reflexivity|]. split; [exact Hin | exact Hall].
+    + rewrite (B1 eq_refl). destruct (A2 ltac:(discriminate)) as (m & E & Hin & Hall). rewrite E.
+      exists m. cbn [merge a_min single_step xlt negb]. rewrite app_nil_r. split; [reflexivity|]. split; [exact Hin | exact Hall].
+    + destruct (A2 ltac:(discriminate)) as (m1 & E1 & Hin1 & Hall1). destruct (B2 ltac:(discriminate)) as (m2 & E2 & Hin2 & Hall2).
+      rewrite E1, E2. cbn [merge a_min single_step xlt].
+      destruct (Qle_bool m1 m2) eqn:E; cbn [negb].
+      * apply Qle_bool_iff in E. exists m1. split; [reflexivity|]. split; [apply in_or_app; left; exact Hin1|].
+        intros q Hq. apply in_app_or in Hq. destruct Hq as [Hq|Hq]; [apply Hall1; exact Hq|].
+        apply Qle_trans with m2; [exact E | apply Hall2; exact Hq].
+      * assert (Hlt : m2 <= m1).
+        { destruct (Qlt_le_dec m2 m1) as [Hl|Hg]; [apply Qlt_le_weak; exact Hl|]. apply Qle_bool_iff in Hg. congruence. }
+        exists m2. split; [reflexivity|]. split; [apply in_or_app; right; exact Hin2|].
+        intros q Hq. apply in_app_or in Hq. destruct Hq as [Hq|Hq]; [|apply Hall2; exact Hq].
+        apply Qle_trans with m1; [exact Hlt | apply Hall1; exact Hq].
+Qed.
+
+Theorem merge_max_exact_all s ms1 ms2 q1 q2 :
+  all_numbers s ms1 = map XFin q1 -> all_numbers s ms2 = map XFin q2 ->
+  let v := merge (a_max s) (run_one (a_max s) ms1) (run_one (a_max s) ms2) in
+  (q1 ++ q2 = [] -> v = KVal (XInf true)) /\
+  (q1 ++ q2 <> [] -> exists m, v = KVal (XFin m) /\ In m (q1 ++ q2) /\ forall q, In q (q1 ++ q2) -> q <= m).
+Proof.
+  intros H1 H2.
+  destruct (max_exact_all s ms1 q1 H1) as [A1 A2]. destruct (max_exact_all s ms2 q2 H2) as [B1 B2].
+  cbv zeta. split.
+  - intro E. apply app_eq_nil in E. destruct E as [-> ->]. rewrite (A1 eq_refl), (B1 eq_refl). reflexivity.
+  - intro N. destruct q1 as [|x1 t1]; destruct q2 as [|x2 t2]; try (exfalso; apply N; reflexivity).
+    + rewrite (A1 eq_refl). destruct (B2 ltac:(discriminate)) as (m & E & Hin & Hall). rewrite E.
+      exists m. cbn [merge a_max single_step xlt]. split; [reflexivity|]. split; [exact Hin | exact Hall].
+    + rewrite (B1 eq_refl). destruct (A2 ltac:(discriminate)) as (m & E & Hin & Hall). rewrite E.
+      exists m. cbn [merge a_max single_step xlt negb]. rewrite app_nil_r. split; [reflexivity|]. split; [exact Hin | exact Hall].
+    + destruct (A2 ltac:(discriminate)) as (m1 & E1 & Hin1 & Hall1). destruct (B2 ltac:(discriminate)) as (m2 & E2 & Hin2 & Hall2).
+      rewrite E1, E2. cbn [merge a_max single_step xlt].
+      destruct (Qle_bool m2 m1) eqn:E; cbn [negb].
+      * apply Qle_bool_iff in E. exists m1. split; [reflexivity|]. split; [apply in_or_app; left; exact Hin1|].
+        intros q Hq. apply in_app_or in Hq. destruct Hq as [Hq|Hq]; [apply Hall1; exact Hq|].
+        apply Qle_trans with m2; [apply Hall2; exact Hq | exact E].
+      * assert (Hlt : m1 <= m2).
+        { destruct (Qlt_le_dec m1 m2) as [Hl|Hg]; [apply Qlt_le_weak; exact Hl|]. apply Qle_bool_iff in Hg. congruence. }
+        exists m2. split; [reflexivity|]. split; [apply in_or_app; right; exact Hin2|].
+        intros q Hq. apply in_app_or in Hq. destruct Hq as [Hq|Hq]; [|apply Hall2; exact Hq].
+        apply Qle_trans with m1; [apply Hall1; exact Hq | exact Hlt].
+Qed.
+
+Lemma weighted_values_app s w ms1 ms2 : weighted_values s w (ms1 ++ ms2) = weighted_values s w ms1 ++ weighted_values s w ms2.
+Proof. unfold weighted_values. apply flat_map_app. Qed.
+
+Lemma sum_vw_app l1 l2 : sum_vw (l1 ++ l2) == sum_vw l1 + sum_vw l2.
+Proof. unfold sum_vw. induction l1 as [|x l1 IH]; cbn [app fold_right]; [ring|]. rewrite IH. ring. Qed.
+
+Lemma sum_w_app l1 l2 : sum_w (l1 ++ l2) == sum_w l1 + sum_w l2.
+Proof. unfold sum_w. induction l1 as [|x l1 IH]; cbn [app fold_right]; [ring|]. rewrite IH. ring. Qed.
+
+(* merge_exact, Avg / WeightedAvg: numerators and denominators add up to those of the concatenation *)
+Theorem merge_wavg_exact_all s w ms1 ms2 p1 p2 :
+  weighted_values s w ms1 = map (fun p => (XFin (fst p), XFin (snd p))) p1 ->
+  weighted_values s w ms2 = map (fun p => (XFin (fst p), XFin (snd p))) p2 ->
+  exists a b, merge (AWAvg s w) (run_one (AWAvg s w) ms1) (run_one (AWAvg s w) ms2) = KWAvg (XFin a) (XFin b) /\
+              a == sum_vw (p1 ++ p2) /\ b == sum_w (p1 ++ p2).
+Proof.
+  intros H1 H2.
+  destruct (wavg_exact_all s w ms1 p1 H1) as (a1 & b1 & E1 & Ha1 & Hb1 & _).
+  destruct (wavg_exact_all s w ms2 p2 H2) as (a2 & b2 & E2 & Ha2 & Hb2 & _).
+  exists (Qred (a1 + a2)), (Qred (b1 + b2)). rewrite E1, E2. split; [reflexivity|].
+  rewrite !Qred_correct, Ha1, Ha2, Hb1, Hb2, sum_vw_app, sum_w_app. split; reflexivity.
+Qed.
+Open Scope Z_scope.
+
+(* merge_exact, sketches: the merged calculator stands for a sketch over the concatenation *)
+Theorem merge_card_exact_all t ms1 ms2 :
+  merge (ACard t) (run_one (ACard t) ms1) (run_one (ACard t) ms2) = run_one (ACard t) (ms1 ++ ms2).
+Proof. rewrite !cardinality_fed_exactly_all. cbn [merge]. rewrite flat_map_app. reflexivity. Qed.
+
+Theorem merge_quant_exact_all s ms1 ms2 :
+  merge (AQuant s) (run_one (AQuant s) ms1) (run_one (AQuant s) ms2) = run_one (AQuant s) (ms1 ++ ms2).
+Proof. rewrite !quantile_fed_exactly_all. cbn [merge]. rewrite all_numbers_app. reflexivity. Qed.
+
+(* the assumption about the third-party sketches under which the two theorems above speak about
+   the implementation: merging two sketches = one sketch fed both inputs *)
+Section SketchMerge.
+  Variables (S V : Type) (sketch : list V -> S) (smerge : S -> S -> S).
+  Hypothesis sketch_merge : forall a b, smerge (sketch a) (sketch b) = sketch (a ++ b).
+  Lemma sketch_merge_fed (f : hit -> list V) ms1 ms2 :
+    smerge (sketch (flat_map f ms1)) (sketch (flat_map f ms2)) = sketch (flat_map f (ms1 ++ ms2)).
+  Proof. rewrite sketch_merge, flat_map_app. reflexivity. Qed.
+End SketchMerge.
+
+(* ----- ranges ----- *)
+
+Lemma merge_buckets_map {R} mb (f g : R -> list calc) ranges :
+  merge_buckets mb (map f ranges) (map g ranges) = map (fun r => mb (f r) (g r)) ranges.
+Proof. induction ranges as [|r rr IH]; [reflexivity|]. cbn [map merge_buckets]. rewrite IH. reflexivity. Qed.
+
+Lemma merge_buckets_ext mb mb' bs1 : forall bs2, (forall a b, mb a b = mb' a b) -> merge_buckets mb bs1 bs2 = merge_buckets mb' bs1 bs2.
+Proof. induction bs1 as [|c1 r1 IH]; intros [|c2 r2] E; try reflexivity. cbn [merge_buckets]. rewrite E, IH by exact E. reflexivity. Qed.
+
+Lemma range_members_app {R V} (inr : R -> V -> bool) vals r ms1 ms2 :
+  range_members inr vals r (ms1 ++ ms2) = range_members inr vals r ms1 ++ range_members inr vals r ms2.
+Proof. unfold range_members. apply flat_map_app. Qed.
+
+(* merge_exact, ranges: bucket by bucket, the merge of the two shards' nested calculators, each of
+   which ran over its shard's part of the bucket; the bucket of the concatenation is the
+   concatenation of the parts (range_members_app), so the metric theorems apply bucket-wise *)
+Theorem merge_range_exact_all s ranges subs ms1 ms2 :
+  merge (ARange s ranges subs) (run_one (ARange s ranges subs) ms1) (run_one (ARange s ranges subs) ms2) =
+  KBuckets (map (fun r => merge_subs subs (run_subs subs (range_members in_range (numbers s) r ms1))
+                                          (run_subs subs (range_members in_range (numbers s) r ms2))) ranges).
+Proof.
+  rewrite !range_counts_exact_all. cbn [merge]. rewrite !map_length, Nat.eqb_refl. f_equal.
+  rewrite (merge_buckets_ext _ (merge_subs subs)) by (intros; apply merge_subs_eq).
+  apply merge_buckets_map.
+Qed.
+
+Theorem merge_date_range_exact_all f ranges subs ms1 ms2 :
+  merge (ADateRange f ranges subs) (run_one (ADateRange f ranges subs) ms1) (run_one (ADateRange f ranges subs) ms2) =
+  KBuckets (map (fun r => merge_subs subs (run_subs subs (range_members in_date_range (dates f) r ms1))
+                                          (run_subs subs (range_members in_date_range (dates f) r ms2))) ranges).
+Proof.
+  rewrite !date_range_counts_exact_all. cbn [merge]. rewrite !map_length, Nat.eqb_refl. f_equal.
+  rewrite (merge_buckets_ext _ (merge_subs subs)) by (intros; apply merge_subs_eq).
+  apply merge_buckets_map.
+Qed.
+
+(* merging buckets = merging their calculators one by one *)
+Lemma merge_subs_each subs : forall cs1 cs2 (f g : agg -> calc),
+  cs1 = map (fun p => f (snd p)) subs -> cs2 = map (fun p => g (snd p)) subs ->
+  merge_subs subs cs1 cs2 = map (fun p => merge (snd p) (f (snd p)) (g (snd p))) subs.
+Proof.
+  induction subs as [|[n a] r IH]; intros cs1 cs2 f g -> ->; [reflexivity|].
+  cbn [map merge_subs snd]. f_equal. apply IH; reflexivity.
+Qed.
+
+(* ----- terms ----- *)
+
+Section MergeTerms.
+  Variable mb : list calc -> list calc -> list calc.
+
+  Lemma merge_into_names b1 ob :
+    map fst (merge_into mb b1 ob) =
+    if existsb (beqb (fst ob)) (map fst b1) then map fst b1 else map fst b1 ++ [fst ob].
+  Proof.
+    induction b1 as [|[nm cs] r IH]; [reflexivity|]. cbn [merge_into map fst existsb].
+    destruct (beqb nm (fst ob)) eqn:E.
+    - apply beqb_true_iff in E. rewrite <- E. rewrite beqb_refl. reflexivity.
+    - replace (beqb (fst ob) nm) with false.
+      + cbn [orb map fst]. rewrite IH. destruct (existsb (beqb (fst ob)) (map fst r)); reflexivity.
+      + symmetry. apply not_true_is_false. intro H. apply beqb_true_iff in H. rewrite H, beqb_refl in E. discriminate.
+  Qed.
+
+  Lemma merge_into_in b1 nm2 c2 nm cs : NoDup (map fst b1) -> In (nm, cs) (merge_into mb b1 (nm2, c2)) ->
+    (nm <> nm2 /\ In (nm, cs) b1) \/
+    (nm = nm2 /\ ((exists c1, In (nm2, c1) b1 /\ cs = mb c1 c2) \/ (~ In nm2 (map fst b1) /\ cs = c2))).
+  Proof.
+    induction b1 as [|[n0 c0] r IH]; intros N H.
+    - cbn in H. destruct H as [E|[]]. inversion E; subst. right. split; [reflexivity|]. right. split; [intros [] | reflexivity].
+    - cbn [map fst] in N. inversion N as [|? ? Nx Nr]; subst. cbn [merge_into fst snd] in H.
+      destruct (beqb n0 nm2) eqn:E.
+      + apply beqb_true_iff in E. subst n0. destruct H as [H|H].
+        * inversion H; subst. right. split; [reflexivity|]. left. exists c0. split; [left; reflexivity | reflexivity].
+        * left. split; [|right; exact H]. intro E. subst nm. apply Nx. apply in_map_iff. exists (nm2, cs). split; [reflexivity | exact H].
+      + assert (Nt : n0 <> nm2) by (intro E'; subst; rewrite beqb_refl in E; discriminate).
+        destruct H as [H|H].
+        * inversion H; subst. left. split; [exact Nt | left; reflexivity].
+        * destruct (IH Nr H) as [[H1 H2]|[H1 [ (cs0 & H2 & H3) | [H2 H3] ]]].
+          -- left. split; [exact H1 | right; exact H2].
+          -- right. split; [exact H1|]. left. exists cs0. split; [right; exact H2 | exact H3].
+          -- right. split; [exact H1|]. right. split; [|exact H3]. cbn [map fst]. intros [E'|H4]; [contradiction | contradiction].
+  Qed.
+
+  Lemma merge_into_nodup b1 ob : NoDup (map fst b1) -> NoDup (map fst (merge_into mb b1 ob)).
+  Proof.
+    intro N. rewrite merge_into_names. destruct (existsb (beqb (fst ob)) (map fst b1)) eqn:E; [exact N|].
+    apply NoDup_app_remove_r with (l' := []). rewrite app_nil_r.
+    apply (Permutation_NoDup (l := fst ob :: map fst b1)); [apply Permutation_cons_append|].
+    constructor; [|exact N]. intro H. apply existsb_beqb in H. congruence.
+  Qed.
+
+  Lemma merge_into_names_in b1 ob nm : In nm (map fst (merge_into mb b1 ob)) <-> In nm (map fst b1) \/ nm = fst ob.
+  Proof.
+    rewrite merge_into_names. destruct (existsb (beqb (fst ob)) (map fst b1)) eqn:E.
+    - apply existsb_beqb in E. split; [auto|]. intros [H| ->]; assumption.
+    - rewrite in_app_iff. cbn [In]. split; [intros [H|[H|[]]]; auto | intros [H|H]; auto].
+  Qed.
+
+  (* the merged bucket list of two lists with distinct names *)
+  Lemma merge_terms_spec b2 : forall b1, NoDup (map fst b1) -> NoDup (map fst b2) ->
+    let r := merge_terms mb b1 b2 in
+    NoDup (map fst r) /\
+    (forall nm, In nm (map fst r) <-> In nm (map fst b1) \/ In nm (map fst b2)) /\
+    (forall nm cs, In (nm, cs) r ->
+       (exists c1 c2, In (nm, c1) b1 /\ In (nm, c2) b2 /\ cs = mb c1 c2) \/
+       (In (nm, cs) b1 /\ ~ In nm (map fst b2)) \/
+       (In (nm, cs) b2 /\ ~ In nm (map fst b1))).
+  Proof.
+    induction b2 as [|[nm2 c2] t IH]; intros b1 N1 N2; cbv zeta.
+    - cbn [merge_terms fold_left map]. split; [exact N1|]. split; [intro nm; cbn; tauto|].
+      intros nm cs H. right. left. split; [exact H | intros []].
+    - cbn [map fst] in N2. inversion N2 as [|? ? Nx Nt]; subst.
+      unfold merge_terms. cbn [fold_left]. fold (merge_terms mb (merge_into mb b1 (nm2, c2)) t).
+      destruct (IH (merge_into mb b1 (nm2, c2)) (merge_into_nodup b1 (nm2, c2) N1) Nt) as (R1 & R2 & R3).
+      split; [exact R1|]. split.
+      + intro nm. rewrite R2, merge_into_names_in. cbn [fst map In]. split; [intros [[H|H]|H]; auto | intros [H|[H|H]]; auto].
+      + intros nm cs H. destruct (R3 nm cs H) as [(c1' & c2' & H1 & H2 & H3)|[[H1 H2]|[H1 H2]]].
+        * assert (Nn : nm <> nm2).
+          { intro E. subst nm. apply Nx. apply in_map_iff. exists (nm2, c2'). split; [reflexivity | exact H2]. }
+          destruct (merge_into_in b1 nm2 c2 nm c1' N1 H1) as [[_ H4]|[H4 _]]; [|contradiction].
+          left. exists c1', c2'. split; [exact H4|]. split; [right; exact H2 | exact H3].
+        * destruct (merge_into_in b1 nm2 c2 nm cs N1 H1) as [[H4 H5]|[H4 [ (c1 & H5 & H6) | [H5 H6] ]]].
+          -- right. left. split; [exact H5|]. cbn [map fst]. intros [E|H6]; [apply H4; symmetry; exact E | contradiction].
+          -- subst nm. left. exists c1, c2. split; [exact H5|]. split; [left; reflexivity | exact H6].
+          -- subst nm cs. right. right. split; [left; reflexivity | exact H5].
+        * right. right. split; [right; exact H1|]. intro H3. apply H2. apply merge_into_names_in. left. exact H3.
+  Qed.
+End MergeTerms.
+
+(* merge_exact, terms, when neither side was trimmed (size at least the number of distinct terms of
+   each shard): totals add up to the number of matches of the concatenation; one bucket per term
+   of either shard; a term of both shards holds the merge of the two shards' nested calculators,
+   a term of one shard that shard's calculators *)
+Theorem merge_terms_exact_all t size subs ms1 ms2 :
+  exists bks1 bks2 bks,
+    run_one (ATerms t size subs) ms1 = KTerms bks1 (Z.of_nat (length ms1)) /\
+    run_one (ATerms t size subs) ms2 = KTerms bks2 (Z.of_nat (length ms2)) /\
+    merge (ATerms t size subs) (KTerms bks1 (Z.of_nat (length ms1))) (KTerms bks2 (Z.of_nat (length ms2))) =
+      KTerms bks (Z.of_nat (length (ms1 ++ ms2))) /\
+    NoDup (map fst bks) /\
+    (forall nm, In nm (map fst bks) <-> exists h, In h (ms1 ++ ms2) /\ In nm (tvalues t h)) /\
+    (forall nm cs, In (nm, cs) bks ->
+       let c1 := run_subs subs (terms_members t nm ms1) in
+       let c2 := run_subs subs (terms_members t nm ms2) in
+       (In nm (map fst bks1) /\ In nm (map fst bks2) /\ cs = merge_subs subs c1 c2) \/
+       (In nm (map fst bks1) /\ ~ In nm (map fst bks2) /\ cs = c1) \/
+       (~ In nm (map fst bks1) /\ In nm (map fst bks2) /\ cs = c2)).
+Proof.
+  destruct (terms_counts_exact_all t size subs ms1) as (bks1 & E1 & N1 & Hn1 & Hc1).
+  destruct (terms_counts_exact_all t size subs ms2) as (bks2 & E2 & N2 & Hn2 & Hc2).
+  exists bks1, bks2, (merge_terms (merge_subs subs) bks1 bks2).
+  split; [exact E1|]. split; [exact E2|].
+  destruct (merge_terms_spec (merge_subs subs) bks2 bks1 N1 N2) as (R1 & R2 & R3).
+  split.
+  - cbn [merge]. f_equal. rewrite app_length. lia.
+  - split; [exact R1|]. split.
+    + intro nm. rewrite R2, Hn1, Hn2. split.
+      * intros [(h & Hh & Hx)|(h & Hh & Hx)]; exists h; (split; [apply in_or_app; auto | exact Hx]).
+      * intros (h & Hh & Hx). apply in_app_or in Hh. destruct Hh as [Hh|Hh]; [left | right]; exists h; split; assumption.
+    + intros nm cs Hin. cbv zeta. destruct (R3 nm cs Hin) as [(c1 & c2 & H1 & H2 & H3)|[[H1 H2]|[H1 H2]]].
+      * left. split; [apply in_map_iff; exists (nm, c1); split; [reflexivity | exact H1]|].
+        split; [apply in_map_iff; exists (nm, c2); split; [reflexivity | exact H2]|].
+        rewrite H3, (Hc1 nm c1 H1), (Hc2 nm c2 H2). reflexivity.
+      * right. left. split; [apply in_map_iff; exists (nm, cs); split; [reflexivity | exact H1]|].
+        split; [exact H2 | apply Hc1; exact H1].
+      * right. right. split; [exact H2|]. split; [apply in_map_iff; exists (nm, cs); split; [reflexivity | exact H1]|].
+        apply Hc2; exact H1.
+Qed.
+
+(* when a side WAS trimmed the merge cannot be exact (the usual approximation of distributed terms
+   aggregations): shard 1 = terms a, a, b trimmed to size 1 keeps [a:2]; shard 2 = b, b keeps
+   [b:2]; merged b has count 2, while b occurs 3 times in the concatenation *)
+Definition mk_term_hit (n : Z) (term : Z) : hit :=
+  {| h_num := n; h_raw := dummy_raw; h_dv := [(0, [[term]])]; h_sort := [] |}.
+
+Example terms_merge_trimmed_ex :
+  let a := ATerms (VSField 0) 1 [(count_id, a_count)] in
+  let s1 := [mk_term_hit 1 97; mk_term_hit 2 97; mk_term_hit 3 98] in
+  let s2 := [mk_term_hit 1 98; mk_term_hit 2 98] in
+  let f1 := finish_with a (run_one a s1) (OTerms [([97], [])] 1) in
+  let f2 := finish_with a (run_one a s2) (OTerms [([98], [])] 0) in
+  merge a f1 f2 = KTerms [([97], [KVal (XFin 2)]); ([98], [KVal (XFin 2)])] 5 /\
+  run_one a (s1 ++ s2) = KTerms [([97], [KVal (XFin 2)]); ([98], [KVal (XFin 3)])] 5.
+Proof. vm_compute. split; reflexivity. Qed.
